@@ -286,6 +286,11 @@ class C17(InterpProp):
                 break
             if isinstance(a['r'], dict) and a['r'].get('outcome') == 'step' and oracles.step_transitions(a['r']['step']):
                 fired += 1
+            if isinstance(a['r'], dict) and a['r'].get('outcome') == 'error' and \
+                    a['r']['err'].get('class') not in ('NonDeterminismError', 'ConflictingTransitionsError'):
+                # a step interrupted by an exception of the statechart's own code or contracts leaves the guest where
+                # it was interrupted — possibly outside its root, which a host then enters again: not compared further
+                break
         res.features.add(p['mode'])
         if fired >= 5:
             res.nontrivial = True
